@@ -16,7 +16,8 @@
                       (Cdcl/Analyze.v) with the learnt clause, its watches, the
                       activity update and the backjump; analyze_unsolvable
                       (Cdcl/Unsolvable.v) at level 1
-     encoder          Async/Encoder.v, futures completed first-in first-out, every
+     encoder          Async/Encoder.v, futures completed first-in first-out (synchronous
+                      runtime) or in an order given as input (any other runtime), every
                       new clause through the model of the clause constructors
                       (Async/EncoderWatch.v: watches, conflict report, assertion)
 
@@ -43,11 +44,13 @@ Record sstate := mkS {
   s_units : list (lit * N);          (* unit learnt clauses *)
   s_act : A;
   s_start : N;                       (* run_sat_starting_level *)
-  s_log : list levent                (* trail events, newest first *)
+  s_log : list levent;               (* trail events, newest first *)
+  s_order : option (list task)       (* completion order of the encoder's futures still to be consumed;
+                                        None = first-in first-out (the synchronous runtime) *)
 }.
 
 Definition with_ps (st : sstate) (ps : pstate) (lg : list levent) : sstate :=
-  mkS (s_enc st) (s_db st) ps (s_asserts st) (s_units st) (s_act st) (s_start st) lg.
+  mkS (s_enc st) (s_db st) ps (s_asserts st) (s_units st) (s_act st) (s_start st) lg (s_order st).
 
 Definition tr_lits (st : sstate) : list lit := tl_lits (ps_trail (s_ps st)).
 Definition top_lv (st : sstate) : N := match ps_trail (s_ps st) with e :: _ => t_level e | [] => 0 end.
@@ -84,13 +87,13 @@ Definition add_clause (acc : sstate * list N) (c : cl) : sstate * list N :=
   let w := create (tr_lits st) c in
   let ps1 := match w_watch w with Some x => start_watching (s_ps st) id x | None => s_ps st end in
   let asserts1 := match w_assert w with Some v => s_asserts st ++ [((v, false), id)] | None => s_asserts st end in
-  (mkS (s_enc st) (s_db st ++ [c]) ps1 asserts1 (s_units st) (s_act st) (s_start st) (s_log st),
+  (mkS (s_enc st) (s_db st ++ [c]) ps1 asserts1 (s_units st) (s_act st) (s_start st) (s_log st) (s_order st),
    if w_conflict w then confl ++ [id] else confl).
 
 (* the encoder state moved from [s_enc st] to [enc1]: its new clauses enter the database *)
 Definition absorb (st : sstate) (enc1 : estate) : sstate * list N :=
   let new := skipn (length (e_db (s_enc st))) (e_db enc1) in
-  let st1 := mkS enc1 (s_db st) (s_ps st) (s_asserts st) (s_units st) (s_act st) (s_start st) (s_log st) in
+  let st1 := mkS enc1 (s_db st) (s_ps st) (s_asserts st) (s_units st) (s_act st) (s_start st) (s_log st) (s_order st) in
   fold_left add_clause new (st1, []).
 
 (* the synchronous runtime: futures complete first-in first-out *)
@@ -104,12 +107,39 @@ Fixpoint enc_fifo (fuel : nat) (falses : list N) (enc : estate) (work : list tas
     end
   end.
 
+(* any other runtime: the futures complete in the order given (None: a completion of something that is
+   not pending, or the order runs out while futures are pending) *)
+Fixpoint enc_ordered (falses : list N) (enc : estate) (work : list task) (order : list task)
+  : option (estate * list task) :=
+  match work with
+  | [] => Some (enc, order)
+  | _ :: _ =>
+    match order with
+    | [] => None
+    | k :: order' =>
+      match remove_task k work with
+      | Some work' => let '(enc1, w1) := run_one U P falses enc k in enc_ordered falses enc1 (work' ++ w1) order'
+      | None => None
+      end
+    end
+  end.
+
 (* Encoder::encode: the conflicting clauses it reports *)
 Definition encode (fuel : nat) (st : sstate) (sos : list (option N)) : option (sstate * list N) :=
   let '(enc1, w) := queue_solvables (s_enc st) sos in
-  match enc_fifo fuel (falses_of (tr_lits st)) enc1 w with
-  | Some enc2 => Some (absorb st enc2)
-  | None => None
+  match s_order st with
+  | None =>
+    match enc_fifo fuel (falses_of (tr_lits st)) enc1 w with
+    | Some enc2 => Some (absorb st enc2)
+    | None => None
+    end
+  | Some order =>
+    match enc_ordered (falses_of (tr_lits st)) enc1 w order with
+    | Some (enc2, order') =>
+      let '(st1, confl) := absorb st enc2 in
+      Some (mkS (s_enc st1) (s_db st1) (s_ps st1) (s_asserts st1) (s_units st1) (s_act st1) (s_start st1) (s_log st1) (Some order'), confl)
+    | None => None
+    end
   end.
 
 Definition clause_falsified (st : sstate) (id : N) : bool :=
@@ -151,7 +181,7 @@ Definition learn (st : sstate) (conf : N) : option (sstate * N) :=
                end in
     let units2 := match lits with [l] => s_units st1 ++ [(l, id)] | _ => s_units st1 end in
     let st2 := mkS (s_enc st1) (s_db st1 ++ [c]) ps2 (s_asserts st1) units2
-                   (a_conflict (s_act st1) (sol_names lits)) (s_start st1) (s_log st1) in
+                   (a_conflict (s_act st1) (sol_names lits)) (s_start st1) (s_log st1) (s_order st1) in
     let target := target_level (r_btl r) (s_start st) in
     let st3 := s_undo_until st2 target in
     match rev lits with
@@ -279,7 +309,7 @@ Fixpoint run_loop (fuel efuel : nat) (st : sstate) (so : option N) (start level 
 
 Definition run_sat (fuel efuel : nat) (st : sstate) (so : option N) : run_res :=
   let start := top_lv st in
-  let st0 := mkS (s_enc st) (s_db st) (s_ps st) (s_asserts st) (s_units st) (s_act st) start (s_log st) in
+  let st0 := mkS (s_enc st) (s_db st) (s_ps st) (s_asserts st) (s_units st) (s_act st) start (s_log st) (s_order st) in
   run_loop fuel efuel st0 so start start.
 
 (* the soft requirements, one after the other *)
@@ -290,7 +320,7 @@ Fixpoint soft_loop (fuel efuel : nat) (st : sstate) (softs : list N) : run_res :
     match pvalue (s_ps st) (VSol s) with
     | Some _ => soft_loop fuel efuel st t
     | None =>
-      let st0 := mkS (s_enc st) (s_db st) (s_ps st) (s_asserts st) (s_units st) (s_act st) (s_start st) (LSoft :: s_log st) in
+      let st0 := mkS (s_enc st) (s_db st) (s_ps st) (s_asserts st) (s_units st) (s_act st) (s_start st) (LSoft :: s_log st) (s_order st) in
       let '(st1, _) := absorb st0 (register U (s_enc st0) s) in
       match run_sat fuel efuel st1 (Some s) with
       | ROk st2 _ => soft_loop fuel efuel st2 t
@@ -302,8 +332,8 @@ Fixpoint soft_loop (fuel efuel : nat) (st : sstate) (softs : list N) : run_res :
 Definition chosen (st : sstate) : list N :=
   flat_map (fun e => match t_lit e with (VSol s, true) => [s] | _ => [] end) (rev (ps_trail (s_ps st))).
 
-Definition solve (fuel efuel : nat) (a0 : A) : outcome * sstate :=
-  let st0 := mkS (estate0 cache0) [mkCl KRoot [(VRoot, true)]] ps0 [] [] a0 0 [] in
+Definition solve (fuel efuel : nat) (a0 : A) (order : option (list task)) : outcome * sstate :=
+  let st0 := mkS (estate0 cache0) [mkCl KRoot [(VRoot, true)]] ps0 [] [] a0 0 [] order in
   match run_sat fuel efuel st0 None with
   | ROk st1 true =>
     match soft_loop fuel efuel st1 (pr_soft P) with
